@@ -312,6 +312,7 @@ func main() {
 	genWiring(fc)
 	genShield(fc)
 	genMint(fc)
+	genVesting(fc)
 	genDeterminism(*repo)
 	var names []string
 	for k := range fc.files {
